@@ -1,4 +1,5 @@
 //@ contract nitrogql_checker::type_system_checker ::fn check_scalar
+//@   requires [C05.ts_scalar.pre_schema_wf] crate::schema_wf(&definition_map.type_system)
 //@   ensures [C05.ts_scalar.frame] crate::extends_errs(old(result)@, final(result)@)
 //@   ensures [C05.ts_scalar.sound] final(result)@.len() == old(result)@.len() ==> crate::valid_scalar(scalar, definition_map)
 //@   ensures [C05.ts_scalar.complete] crate::valid_scalar(scalar, definition_map) ==> final(result)@.len() == old(result)@.len()
